@@ -20,7 +20,10 @@ def handle : List String → Option String
     let sc ← parseSc sc
     let inputs ← parseTreesList inputs
     if inputs.length % 2 = 1 ∧ inputs.all (fun i => i.length % 2 = 1) then
-      some (showTrees (mergedTreeMerge sc (slotMerge sc) inputs))
+      -- the harness links jj with debug assertions: a firing `debug_assert_eq!` is a panic
+      if resolveDebugAssert sc (slotMerge sc) (mergeNoResolve inputs) then
+        some (showTrees (mergedTreeMerge sc (slotMerge sc) inputs))
+      else some "panic:resolve-debug-assert"
     else some "panic"
   | ["pv", sc, ts, p] => do
     let sc ← parseSc sc
